@@ -46,7 +46,7 @@ def _replay_validate(ck, sw, beh, mode, label, tag, retry=True):
     bads, _ = vlib.validate_trace(sw, "CodecConnMonTrace", "CodecConnMonTrace.cfg", trace, parallel=2, extra_env=JENV)
     rejected = set()
     for sid, i, key in bads:
-        if key in RETRY_KEYS and retry and beh and "kind=mem" not in mode:
+        if key in RETRY_KEYS and retry and key not in ck.confirmed and beh and "kind=mem" not in mode:
             one = "%s.%s.retry%d" % (beh, tag, sid)
             with open(one, "w") as f:
                 f.write(vlib.nth_line(beh, sid) + "\n")
@@ -56,6 +56,8 @@ def _replay_validate(ck, sw, beh, mode, label, tag, retry=True):
                 vlib.run_replay(["codecconn", "-in", one, "-out", t2, "-seed", str(ck.seed), "-mode", mode])
                 b2, _ = vlib.validate_trace(sw, "CodecConnMonTrace", "CodecConnMonTrace.cfg", t2, parallel=1, extra_env=JENV)
                 again += 1 if any(k == key for _s, _i, k in b2) else 0
+            if again == 3:
+                ck.confirmed.add(key)   # re-executed once per rule, not once per scenario
             if again < 3:
                 ck.inconclusive.append("%s seen once in scenario %d (%s) but only %d/3 re-executions" % (key, sid, label, again))
                 continue
@@ -96,6 +98,7 @@ LIMIT_BEHAVIOUR = [  # an item of exactly the limit (1 GiB): prefix split, would
 
 def run(ck):
     ck.lock = threading.Lock()
+    ck.confirmed = set()
     vlib.build_harness()
     sw = vlib.prep_spec("CodecConn", ck.work)
     quick = ck.tier == "quick"
@@ -224,6 +227,7 @@ def run(ck):
 
 def replay(ck, path):
     ck.lock = threading.Lock()
+    ck.confirmed = set()
     vlib.build_harness()
     sw = vlib.prep_spec("CodecConn", ck.work)
     obj = json.load(open(path))
